@@ -1,13 +1,18 @@
 import BigDec.Model.Inverse
 import BigDec.Proofs.Arith
+import BigDec.Proofs.InvAccuracy
+import BigDec.Proofs.EstCode
 /-! # C12 — reciprocal (partial by nature)
 
 Proved for all inputs: the Newton step is exact and squares the residual, the result carries the
-sign of `x`, and negation commutes with the operation under the mirrored mode.  Not proved
-(`C12_inverse_full` below is a `Prop`, not a theorem): that the loop terminates for every input and
-guess, and that on exit the `p+2`-digit iterate is within one unit of `1/x`.  That gap is closed
-per sampled input by the exact certificate of the correspondence run, which also records
-non-termination of the model (fuel 400) as a failure. -/
+sign of `x`, negation commutes with the operation under the mirrored mode, and - partial
+correctness - whenever the loop stops, the `p+2`-digit iterate it returns agrees with `1/x` to a
+relative error of `10^-(p+1)` (`C12_exit_accuracy`), the final result being the declarative rounding
+(C07) of that iterate to `p` digits.  Not proved (`C12_inverse_full` below is a `Prop`, not a
+theorem): that the loop terminates for every input and guess, and the sharp "less than one unit of
+the p-th digit" after the final rounding.  Those are decided per generated input by the exact test
+`|R·x − 1| < unit·x` of the correspondence run, which also records non-termination of the model
+(fuel 400) as a failure. -/
 namespace BigDec
 
 /-- one Newton step computes `r·(2 − x·r)` exactly (no rounding inside the step) -/
@@ -63,6 +68,59 @@ theorem C12_sign_copied (est : Nat → Nat) (d : Dec) (p : Nat) (m : Mode) (g : 
   cases hq : implInverse est d.int.natAbs d.scale p m.mirror g with
   | none => rw [hq] at h; simp at h
   | some q => rw [hq] at h; simp at h; exact ⟨q, rfl, h.symm⟩
+
+/-- **exit accuracy (partial correctness)**: if the initial guess is within 94% of `1/x`
+    (`|1 − x·g| ≤ 94/100`; observed per input by the driver: the real guess is within 70% except for
+    bit lengths that push it through f64 underflow, and never beyond 94%) and
+    the loop stops - by a repeated iterate or by an alternation - then the `p+2`-digit iterate `R` it
+    returns is positive and `|1 − x·R| ≤ 10^-(p+1)`: it agrees with `1/x` to `p+1` significant digits,
+    for every `x > 0`, precision `p ≥ 1`, and every digit estimate satisfying `EstOK` (in particular the
+    code's own, `estGuard`). -/
+theorem C12_exit_accuracy {est : Nat → Nat} (hest : EstOK est) (n : Nat) (scale : Int) (p : Nat) (g : Dec)
+    (fuel : Nat) (R : Dec) (hn : 0 < n) (hp : 1 ≤ p) (hg : 0 < g.value)
+    (hguess : |1 - (Dec.mk n scale).value * g.value| ≤ 94 / 100)
+    (h : invLoop est ⟨n, scale⟩ p fuel Dec.zero (invNext ⟨n, scale⟩ g) = some R) :
+    0 < R.value ∧ |1 - (Dec.mk n scale).value * R.value| ≤ (10 : ℚ) ^ (-((p : Int) + 1)) := by
+  have hs : 0 < (Dec.mk n scale).value := by
+    rw [value_pos_iff]; simp; omega
+  have hv := invNext_value ⟨n, scale⟩ g
+  obtain ⟨g1, g2⟩ := abs_le.mp hguess
+  have hrun : 0 < (invNext ⟨n, scale⟩ g).value := by
+    rw [hv]; apply mul_pos hg; linarith
+  have hres : |1 - (Dec.mk n scale).value * (invNext ⟨n, scale⟩ g).value| ≤ 9 / 10 := by
+    rw [hv]
+    have e : 1 - (Dec.mk n scale).value * (g.value * (2 - (Dec.mk n scale).value * g.value))
+        = (1 - (Dec.mk n scale).value * g.value) ^ 2 := by ring
+    rw [e, abs_of_nonneg (sq_nonneg _)]
+    nlinarith
+  have hzero : Dec.zero.value = 0 := by simp [Dec.zero, Dec.value]
+  obtain ⟨r1, r2⟩ := invLoop_exit hest ⟨n, scale⟩ hs p hp fuel Dec.zero _ R hrun hres (Or.inl hzero) h
+  refine ⟨r1, le_trans r2 (le_of_eq ?_)⟩
+  unfold invRho
+  have hextra : Generated.inverseExtraPrec = 2 := rfl
+  rw [hextra]
+  have : (1 : Int) - ((p + 2 : Nat) : Int) = -((p : Int) + 1) := by push_cast; ring
+  rw [this]
+  ring
+
+/-- the same with the code's own f64 digit estimate (up to 2^40 bits) -/
+theorem C12_exit_accuracy_code (n : Nat) (scale : Int) (p : Nat) (g : Dec)
+    (fuel : Nat) (R : Dec) (hn : 0 < n) (hp : 1 ≤ p) (hg : 0 < g.value)
+    (hguess : |1 - (Dec.mk n scale).value * g.value| ≤ 94 / 100)
+    (h : invLoop estGuard ⟨n, scale⟩ p fuel Dec.zero (invNext ⟨n, scale⟩ g) = some R) :
+    0 < R.value ∧ |1 - (Dec.mk n scale).value * R.value| ≤ (10 : ℚ) ^ (-((p : Int) + 1)) :=
+  C12_exit_accuracy estGuard_ok n scale p g fuel R hn hp hg hguess h
+
+/-- what `impl_inverse` returns: the loop's exit iterate, rounded to `p` digits by
+    `with_precision_round` (= the declarative rounding, C07) when it has more than `p` digits -/
+theorem C12_result_is_rounded_iterate (est : Nat → Nat) (n : Nat) (scale : Int) (p : Nat) (m : Mode) (g : Dec) (fuel : Nat) :
+    implInverse est n scale p m g fuel =
+      (invLoop est ⟨n, scale⟩ p fuel Dec.zero (invNext ⟨n, scale⟩ g)).bind
+        (fun R => if R.digits > p then R.withPrecisionRound p m else some R) := by
+  unfold implInverse
+  simp only
+  generalize invLoop est ⟨n, scale⟩ p fuel Dec.zero (invNext ⟨n, scale⟩ g) = o
+  cases o <;> rfl
 
 /-- the full statement, **not proved**: termination for every input and the one-unit bound.
     (Kept as a visible, type-checked proposition.) -/
